@@ -150,9 +150,11 @@ claim("C02", "model_checking",
       "TLC-enumerated document space (MdBlocks) + round-trip identity")
 
 claim("C03", "model_checking",
-      "spec/MdBlocks.tla is the CommonMark block algorithm as a TLA+ state machine and spec/MdInline.tla the emphasis algorithm; TLC "
-      "enumerates every document over the line alphabets (2 lines exhaustive; 3 lines per (abstract state, line shape) transition with "
-      "VIEW) with the model's block tree, and every line over {a, space, *, _} up to 7/8 characters with the model's HTML. The real parser's "
+      "spec/MdBlocks.tla is the CommonMark block algorithm as a TLA+ state machine (containers, laziness, lists, headings, code, thematic "
+      "breaks, tabs, HTML blocks of kinds 2/6/7) and spec/MdInline.tla the emphasis algorithm with code spans and backslash escapes; TLC "
+      "enumerates every document over eight line alphabets (2 lines exhaustive; 3 lines per (abstract state, line shape) transition with "
+      "VIEW) with the model's block tree, and every line over {a, space, *, _} up to 6/8 characters and over {a, space, *, `, \\} up to "
+      "6/7 characters with the model's HTML (placed in a paragraph, a heading and a block quote). The real parser's "
       "HTML is parsed back into the same canonical tree and compared. A disagreement is a violation only if corroborated: the vendored "
       "markdown-it-py must give the model's result; otherwise the document is in the contested region (counted; > 5 % is a machinery failure).",
       DOCS_NOTE % "C03", "TLA+ reference models (MdBlocks, MdInline) enumerated by TLC, replayed into parser + HTML generator, corroborated by markdown-it")
@@ -167,17 +169,20 @@ claim("C05", "model_checking",
       "spec/MdPos.tla: a positioned token is true iff its line exists, its column lies in the line and the character there (raw or "
       "tab-expanded reading) is an opener of its kind (or the region fact of BLANK / indented code / HTML block / paragraph holds); block "
       "tokens come in non-decreasing line order. Evaluated by TLC in Trace_MdTokens for every positioned token of every document of the "
-      "C01 spaces that parses; C11 adds the shift-by-one-line relation under pragma insertion.", DOCS_NOTE % "C05",
-      "TLA+ MdPos predicate evaluated by TLC on every recorded token position")
+      "C01 spaces that parses. Second oracle: the opener line/column spec/MdBlocks.tla assigns to every block node against the block "
+      "tokens of the real parser (documents without tabs whose structure agrees with the model). C11 adds the shift-by-one-line relation "
+      "under pragma insertion.", DOCS_NOTE % "C05",
+      "TLA+ MdPos predicate evaluated by TLC on every recorded token position + MdBlocks node positions replayed")
 
 claim("C06", "model_checking",
-      "spec/Rules.tla transcribes the documented trigger condition of 13 rules (MD001 MD009 MD010 MD012 MD013 MD019 MD023 MD025 MD035 "
-      "MD040 MD046 MD047 MD048) as operators returning must/may line sets (documentation-undecided cases are named in the module), over "
-      "line and block facts computed WITHOUT the implementation (text + markdown-it source maps). TLC (Trace_Rules) evaluates each "
+      "spec/Rules.tla transcribes the documented trigger condition of the 24 rules the property names (MD001 MD003 MD004 MD009 MD010 MD012 "
+      "MD013 MD018 MD019 MD022 MD023 MD024 MD025 MD026 MD031 MD032 MD035 MD040 MD041 MD042 MD045 MD046 MD047 MD048) as operators returning "
+      "must/may line sets (documentation-undecided cases are named in the module and never alarmed), over line, block and inline facts "
+      "computed WITHOUT the implementation (text + markdown-it source maps). TLC (Trace_Rules) evaluates each "
       "(document, rule, configuration) and compares with the lines the implementation reported; configurations are the documented values "
       "of each rule's items; default-configuration verdicts of the style-memory rules are also taken after other documents were "
       "processed. Judged only where the implementation's rendered tree equals markdown-it's (precondition C03).",
-      DOCS_NOTE % "C06" + " The other 11 rules the property names are not judged (no transcription yet).",
+      DOCS_NOTE % "C06" + " Not every configuration item is exercised (MD022 lines_above/below, MD024 siblings_only, MD031 list_items, MD009 list_item_empty_lines are left at their defaults).",
       "TLA+ Rules spec (documented conditions) evaluated by TLC against the implementation's reports")
 
 claim("C08", "model_checking",
